@@ -40,12 +40,14 @@ type DumpCheck struct {
 	Revs      []DumpRev
 }
 type Dump struct {
-	Default         []DumpCheck         `json:"default"`
-	Experimental    []DumpCheck         `json:"experimental"`
-	Tables          map[string][]string `json:"tables"`
-	Consts          map[string]string   `json:"consts"`
-	VolumeJSONNames map[string]string   `json:"volumeJSONNames"`
-	VolumeProbe     struct {
+	Default                []DumpCheck         `json:"default"`
+	Experimental           []DumpCheck         `json:"experimental"`
+	Tables                 map[string][]string `json:"tables"`
+	Consts                 map[string]string   `json:"consts"`
+	VolumeJSONNames        map[string]string   `json:"volumeJSONNames"`
+	PodSpecResources       []string            `json:"podSpecResources"`
+	IgnoredPodSubresources []string            `json:"ignoredPodSubresources"`
+	VolumeProbe            struct {
 		Error    string      `json:"error"`
 		Allowed  []string    `json:"allowed"`
 		Bad      [][2]string `json:"bad"`
@@ -1282,49 +1284,12 @@ end PSA.Generated
 		fail("F7: constant %s.%s not an integer", pkg, name)
 		return "0"
 	}
-	mapKeys := func(pkg, name string) []string {
-		p := byName[mod+pkg]
-		var keys []string
-		found := false
-		for _, f := range p.Syntax {
-			for _, d := range f.Decls {
-				gd, ok := d.(*ast.GenDecl)
-				if !ok {
-					continue
-				}
-				for _, sp := range gd.Specs {
-					vs, ok := sp.(*ast.ValueSpec)
-					if !ok || len(vs.Names) != 1 || vs.Names[0].Name != name || len(vs.Values) != 1 {
-						continue
-					}
-					cl, ok := vs.Values[0].(*ast.CompositeLit)
-					if !ok {
-						continue
-					}
-					found = true
-					for _, el := range cl.Elts {
-						kv := el.(*ast.KeyValueExpr)
-						tv := p.TypesInfo.Types[kv.Key]
-						if tv.Value != nil && tv.Value.Kind() == constant.String && isIdent(kv.Value, "true") {
-							keys = append(keys, constant.StringVal(tv.Value))
-						} else if call, ok := kv.Key.(*ast.CallExpr); ok && len(call.Args) == 1 && isIdent(kv.Value, "true") {
-							s, _ := (&astCtx{pkg: p}).constString(call.Args[0])
-							grp := ""
-							if sel, ok := call.Fun.(*ast.SelectorExpr); ok {
-								grp = fmt.Sprint(sel.X)
-							}
-							keys = append(keys, grp+"/"+s)
-						} else {
-							fail("F7: %s.%s: unrecognised map entry", pkg, name)
-						}
-					}
-				}
-			}
+	// the two admission tables are read off the running code by the harness (sorted; see dump.go), not off a declaration's shape
+	dumpList := func(name string, l []string) []string {
+		if len(l) == 0 {
+			fail("F7: the harness dump has no %s", name)
 		}
-		if !found {
-			fail("F7: %s.%s not found", pkg, name)
-		}
-		return keys
+		return l
 	}
 	facts := `import Psa.Str
 /-! GENERATED by /verif/go/factx from /repo — do not edit. Structural facts about the code. -/
@@ -1367,8 +1332,8 @@ def stateWrites : List (Str × Str × Str) :=
 def namespaceMaxPodsToCheck : Nat := ` + constInt("admission", "defaultNamespaceMaxPodsToCheck") + `
 def namespacePodCheckTimeoutNs : Nat := ` + constInt("admission", "defaultNamespacePodCheckTimeout") + `
 def maxRequestSize : Nat := ` + constInt("cmd/webhook/server", "maxRequestSize") + `
-def ignoredPodSubresources : List Str := ` + leanStrs(mapKeys("admission", "ignoredPodSubresources")) + `
-def podSpecResources : List Str := ` + leanStrs(mapKeys("admission", "defaultPodSpecResources")) + `
+def ignoredPodSubresources : List Str := ` + leanStrs(dumpList("ignoredPodSubresources", dump.IgnoredPodSubresources)) + `
+def podSpecResources : List Str := ` + leanStrs(dumpList("podSpecResources", dump.PodSpecResources)) + `
 
 end PSA.Generated
 `
@@ -1378,10 +1343,22 @@ end PSA.Generated
 		os.WriteFile(filepath.Join(filepath.Dir(*dumpFile), "factx_extra.json"), b, 0o644)
 	}
 	if len(failures) > 0 {
+		soft := true
 		for _, f := range failures {
 			fmt.Fprintln(os.Stderr, "factx:", f)
+			if !strings.HasPrefix(f, "F7:") {
+				soft = false
+			}
 		}
-		os.Exit(1)
+		if !soft {
+			os.Exit(1)
+		}
+		// only constants / small tables (F7) could not be read: they were emitted as 0 / the empty list, which no obligation over
+		// them accepts, so the properties that rest on them (and only those) see a broken obligation; everything else is fresh
+		for _, w := range pending {
+			writeNow(w[0], w[1])
+		}
+		os.Exit(3)
 	}
 	for _, w := range pending {
 		writeNow(w[0], w[1])
